@@ -73,6 +73,9 @@ class Result(object):
             self.samples.append(s)
 
 
+CONFIG_TAGS = (' [-DNDEBUG build]',)
+
+
 def finish(res, checker_cmd):
     """Print the report, write evidence, return the exit code."""
     known, fixed = load_known()
@@ -80,8 +83,12 @@ def finish(res, checker_cmd):
     unlisted = []
     listed = {}
     for v in res.violations:
-        if v['key'] in kn:
-            listed.setdefault(v['key'], []).append(v)
+        base = v['key']
+        for t in CONFIG_TAGS:           # the same construct seen in another build configuration is the same finding
+            if base.endswith(t):
+                base = base[:-len(t)]
+        if base in kn:
+            listed.setdefault(base, []).append(v)
         else:
             unlisted.append(v)
     for n in res.notes:
